@@ -678,14 +678,18 @@ class Gen:
                     if len(s.encode()) > c_ or (fixed and len(s.encode()) != c_):
                         return lit(vs(s)), 'reject', {'arr_str', 'str_utf8_overflow'}
                 if strlike:
-                    if r.random() < 0.2 and n >= 2 and 'numtext' not in tags:
+                    if r.random() < 0.2 and n >= 2 and 'numtext' not in tags and s.isascii():
                         s = s[:n - 2] + 'é'
-                    tags.add('arr_str')
-                    if not legal:
-                        return lit(vs(s.replace(' ', 'b'))), 'reject', tags
+                    # whatever was done to the text above: the capacity is about the BYTES of its UTF-8 encoding
+                    nb = len(s.encode())
+                    legal_b = (nb == t['n']) if fixed else (nb <= t['cap'])
+                    tags = (tags - {'arr_len_legal', 'arr_over_capacity', 'arr_len_fixed_wrong'}) | {
+                        'arr_str', 'arr_len_legal' if legal_b else ('arr_len_fixed_wrong' if fixed else 'arr_over_capacity')}
+                    if not legal_b:
+                        return lit(vs(s)), 'reject', tags
                     if any(not lo <= b <= hi for b in s.encode()):
                         return lit(vs(s)), None, tags
-                    return lit(vs(s)), exp, tags
+                    return lit(vs(s)), 'accept', tags
                 # a str for an array that is not string-like: "text is not a number" -> the contract says it raises
                 tags.add('arr_str_nonstring')
                 return lit(r.choice([vs(s), vy(s.encode())]) if not (et['k'] == 'uint' and et['w'] <= 8) else vs(s)), 'reject', tags | {'numtext'}
